@@ -72,6 +72,8 @@ structure PostF (s : State) (f : Frame) : Prop where
   tmo : f.why = .timeout → expiredB f.dl s.now = true
   why : ∀ k, f.why = .readyAt k → f.deqRes[k]? = some false
   rdy : f.ready < f.count → ¬ isCvAt f f.ready → sReady s f f.ready
+  /-- the first poll loop never reports a condition variable (cv_ready_time without a record: no deadline) -/
+  cvr : f.ready < f.count → isCvAt f f.ready → f.recs ≠ []
 
 /-- the dequeue call on object j will return / has returned `res` -/
 def ResF (s : State) (f : Frame) (j : Nat) (res : Bool) : Prop :=
@@ -176,7 +178,7 @@ theorem deqF_stable {W : Prop} {s s' : State} {f : Frame} (st : Stable W s s' f)
   · exact .inr ⟨h1, h2, sReady_stable st (.inl hf) h3⟩
 
 theorem postF_stable {W : Prop} {s s' : State} {f : Frame} (st : Stable W s s' f) (h : PostF s f) : PostF s' f :=
-  ⟨fun ht => expiredB_mono st.now (h.tmo ht), h.why, fun h1 h2 => sReady_stable st (.inr h2) (h.rdy h1 h2)⟩
+  ⟨fun ht => expiredB_mono st.now (h.tmo ht), h.why, fun h1 h2 => sReady_stable st (.inr h2) (h.rdy h1 h2), h.cvr⟩
 
 /-- program points at which the frame's records may already be dead -/
 def PostPc (p : PC) : Bool :=
